@@ -75,13 +75,16 @@ Theorem refuted_timesubsdur_spin : fx_subsdur current = false ->
   exists r, handler_model current envW r = HHang "app.calcCueItvls: loop".
 Proof. witness (live "/livesim2/timesubsstpp_en/timesubsdur_-3001/a/timestpp-en/45.m4s" "100000"). Qed.
 
-Theorem refuted_chunkdur : fx_chunkdur current = false ->
-  exists r, handler_model current envW r = HPanic "app.chunkSegment: integer divide by zero".
-Proof. witness (live "/livesim2/ato_2/chunkdur_0.5/a/V/45.m4s" "100000"). Qed.
+Ltac witness2 r := let H := fresh "H" in let H2 := fresh "H" in intros H H2; vm_compute in H; vm_compute in H2;
+  first [ discriminate H | discriminate H2 | (exists r; vm_compute; reflexivity) ].
 
-Theorem refuted_chunkdur_wrap : fx_chunkdur current = false ->
+Theorem refuted_chunkdur : fx_chunkdur current = false -> fx_chunk_cap current = false ->
   exists r, handler_model current envW r = HPanic "app.chunkSegment: integer divide by zero".
-Proof. witness (live "/livesim2/chunkdur_1/ato_-2147481.648/a/V/45.m4s" "100000"). Qed.
+Proof. witness2 (live "/livesim2/ato_2/chunkdur_0.5/a/V/45.m4s" "100000"). Qed.
+
+Theorem refuted_chunkdur_wrap : fx_chunkdur current = false -> fx_chunk_cap current = false ->
+  exists r, handler_model current envW r = HPanic "app.chunkSegment: integer divide by zero".
+Proof. witness2 (live "/livesim2/chunkdur_1/ato_-2147481.648/a/V/45.m4s" "100000"). Qed.
 
 Theorem refuted_chunk_sleep : fx_chunkdur current = false ->
   exists r, handler_model current envW r = HHang "app.writeChunkedSegment: sleep".
